@@ -160,6 +160,16 @@ def _boundary_programs(rng, cs):
     return ps
 
 
+def _many_names_programs(rng):
+    """thousands of distinct names / categories on one thread (a per-thread name cache must keep every one of them alive
+    until saveLog): just below, at and beyond powers of two"""
+    ps = []
+    for n in (rng.pick([511, 1023, 1025]), rng.pick([2049, 3100, 4097])):
+        ps.append(["B.first.c1", "#%d[ M.n%%.k%% ]" % n, "E", "M.first.c1"])
+    ps.append(["#%d[ B.r%%.- C.v%%.%% E ]" % rng.pick([700, 1100, 2100])])
+    return ps
+
+
 def _clean_stale():
     """scratch directories of harness processes that were killed by a sanitizer report"""
     base = os.path.join(core.CACHE, "c20")
@@ -214,7 +224,7 @@ def gen_cases(rng, tier, h):
     bp = _boundary_programs(rng, CHUNK)
     if quick:
         bp = bp[:6] + [rng.pick(bp[6:]) for _ in range(3)]
-    for p in bp:
+    for p in bp + _many_names_programs(rng):
         cases.append(_trace_case(rng, big=p))
     if not quick:
         for p in _boundary_programs(rng, CHUNK):
